@@ -169,9 +169,9 @@ func (v *naVal) render(sb *strings.Builder) naExp {
 	return e
 }
 
-var naDisplays = []string{"", "Bob", "Bob Smith", "\"q\"", "\"a \\\" , ; < b\"", "*67", "*"}
+var naDisplays = []string{"", "Bob", "Bob Smith", "\"q\"", "\"a \\\" , ; < b\"", "*67", "*", "\"C:\\\\\"", "\"\\\\\""} // the last two: quoted strings that END in an escaped backslash
 var naURIs = []string{"sip:a@b", "sip:h:5060", "tel:1"}
-var naParamMenu = []naParam{{"tag", "T", true}, {"TAG", "T2", true}, {"expires", "7", true}, {"q", "0.5", true}, {"lr", "", false}, {"x", "", false}, {"x", "y", true}, {"x", "\"q;,\"", true}}
+var naParamMenu = []naParam{{"tag", "T", true}, {"TAG", "T2", true}, {"expires", "7", true}, {"q", "0.5", true}, {"lr", "", false}, {"x", "", false}, {"x", "y", true}, {"x", "\"q;,\"", true}, {"dir", "\"C:\\\\\"", true}}
 var naLWS = []string{" ", "\r\n ", "\t"}
 
 // further LWS forms used by the thorough tier (lone-LF / lone-CR folds, CRLF HT)
@@ -676,6 +676,27 @@ func checkC09(r *Run) {
 			}
 		}
 	})
+	// parameter names that only resemble the recognised ones (longer, shorter, with a suffix): generic parameters,
+	// alone, before and after the real tag / expires / q / lr
+	look := []naParam{{"expiresx", "77", true}, {"Expires-Refresh", "86400", true}, {"expires_after", "\"1\"", true}, {"expire", "5", true}, {"xexpires", "6", true},
+		{"tagg", "zz", true}, {"tags", "", false}, {"ta", "t", true}, {"qq", "0.9", true}, {"q1", "1", true}, {"lrr", "", false}, {"lr1", "x", true}, {"l", "", false}}
+	parallelFor(r, len(look), func(c *enumCtx, li int) {
+		lp := look[li]
+		for _, pl := range [][]naParam{{lp}, {lp, {"expires", "30", true}, {"tag", "T", true}}, {{"q", "0.5", true}, {"expires", "30", true}, lp}, {{"tag", "T", true}, lp, {"lr", "", false}}, {lp, look[(li+5)%len(look)]}} {
+			for si, sh := range shapes {
+				if si%3 != li%3 {
+					continue
+				}
+				v := sh
+				v.Params = pl
+				v.Gaps = make([]string, v.nslots())
+				for _, k := range []sipsp.HdrT{sipsp.HdrContact, sipsp.HdrFrom, sipsp.HdrPAI} {
+					run(c, &c09Case{Hdr: int(k), Vals: []naVal{v}})
+					run(c, &c09Case{Hdr: int(k), Via: true, Vals: []naVal{v, {URI: "sip:second@h", Bracket: true, Params: []naParam{{"expires", "60", true}}}}[:1+map[bool]int{true: li % 2, false: 0}[k != sipsp.HdrFrom]], ValCap: []int{-1, 0, 2}[si%3], HdrName: hdrNameFor(k, li%2 == 0)})
+				}
+			}
+		}
+	})
 	// every legal way of writing a q value (RFC 3261 qvalue: "0" ["." 0*3DIGIT] / "1" ["." 0*3("0")]), alone and next
 	// to other parameters
 	qforms := []string{"0", "1", "0.", "1.", "0.0", "1.0", "0.00", "1.00", "0.000", "1.000", "0.5", "0.05", "0.005", "0.50", "0.500", "0.123", "0.999", "0.001", "0.01", "0.1"}
@@ -738,6 +759,27 @@ func checkC09(r *Run) {
 			}
 		}
 	})
+	// longer lists: n = 4..40 values in one header and split over two, capacities around n and around the built-in size
+	parallelFor(r, 37, func(c *enumCtx, k int) {
+		n := k + 4
+		var vals []naVal
+		for i := 0; i < n; i++ {
+			v := lvals[(i*3+n)%len(lvals)]
+			v.URI = fmt.Sprintf("sip:u%d@h", i)
+			vals = append(vals, v)
+		}
+		cms := make([]string, n)
+		for i := range cms {
+			cms[i] = commas[(i+n)%len(commas)]
+		}
+		for _, kd := range []sipsp.HdrT{sipsp.HdrContact, sipsp.HdrPAI} {
+			run(c, &c09Case{Hdr: int(kd), Vals: vals, Comma: cms})
+			for _, vc := range []int{-1, 0, 1, 9, 10, 11, n - 1, n, n + 1} {
+				run(c, &c09Case{Hdr: int(kd), Via: true, Vals: vals, Comma: cms, ValCap: vc, HdrName: hdrNameFor(kd, n%2 == 0)})
+				run(c, &c09Case{Hdr: int(kd), Via: true, Vals: vals[:n/2], Vals2: vals[n/2:], Comma: cms, ValCap: vc, HdrName: hdrNameFor(kd, n%2 == 1)})
+			}
+		}
+	})
 	var sb strings.Builder
 	x := lvals[2]
 	x.render(&sb)
@@ -755,5 +797,5 @@ func init() {
 	}
 	register("C09", &checkDef{fn: checkC09,
 		rule:        "E4: generated name-addr values (display x URI x bracket form x ordered parameter lists x LWS at every legal gap, <= 2 non-empty gaps) and lists of 1-3 values in 1-2 headers, through ParseNameAddrPVal (6 header kinds) and ParseHeaders (From/To/Contact/PAI, capacities); expectations by construction; every case is a distinct non-trivial value",
-		quickBudget: 120 * time.Second, thorBudget: 20 * time.Minute})
+		quickBudget: 240 * time.Second, thorBudget: 40 * time.Minute})
 }
